@@ -7,6 +7,7 @@ func init() {
 	vRegister("HarnessC11_stream", HarnessC11_stream)
 	vRegister("HarnessC11_witness", HarnessC11_witness)
 	vRegister("HarnessC11_symleaf", HarnessC11_symleaf)
+	vRegister("HarnessC11_spine", HarnessC11_spine)
 }
 
 // ---- model (DESIGN.md B.3) ----
@@ -273,12 +274,9 @@ func c11Check(docs []any) { c11CheckX(docs, true) }
 
 func c11CheckX(docs []any, excludeKnown bool) {
 	want := []any{}
-	for _, d := range docs {
-		if excludeKnown && c11Region(d) {
-			vCover("known.C11-R1")
-			vAssume(false)
-		}
-	}
+	// (C11-R1, a marked map that is a direct list entry, was repaired in
+	// /repo: such inputs are asserted like any other)
+	_ = excludeKnown
 	for i, d := range docs {
 		vObserve("doc"+string(rune('0'+i)), d)
 		want = append(want, c11Outs(d)...)
@@ -328,4 +326,39 @@ func HarnessC11_symleaf() {
 		return
 	}
 	c11Check([]any{c11Tree(2)})
+}
+
+// HarnessC11_spine: a chain of four nested containers (maps or lists), each
+// with a marker true / false / none and a sibling leaf: selections inside
+// selections inside hidden subtrees and the other way round, deeper than the
+// full trees of HarnessC11_output reach.
+func HarnessC11_spine() {
+	var build func(level int) any
+	build = func(level int) any {
+		if level == 4 {
+			return c11Leaf()
+		}
+		mark := ndChoice(3)
+		if ndChoice(2) == 0 {
+			m := map[string]any{"a": build(level + 1), "b": c11Leaf()}
+			switch mark {
+			case 1:
+				m["$output"] = true
+			case 2:
+				m["$output"] = false
+			}
+			return m
+		}
+		l := []any{}
+		switch mark {
+		case 1:
+			l = append(l, map[string]any{"$output": true})
+		case 2:
+			l = append(l, map[string]any{"$output": false})
+		}
+		inner := build(level + 1)
+		vAssume(!c11IsMarkerEntry(inner))
+		return append(l, inner, c11Leaf())
+	}
+	c11Check([]any{build(0)})
 }
